@@ -156,7 +156,7 @@ func streamModelCorr(c *core.Ctx, r *core.Rand, n int) error {
 	var lines, impls []string
 	for i := 0; i < n; i++ {
 		content := r.Bytes(r.Intn(24))
-		node := basicnode.NewBytesFromReader(bytes.NewReader(content))
+		node := basicnode.NewBytesFromReader(core.StreamSource(r, content))
 		lb := node.(datamodel.LargeBytesNode)
 		nv := 1 + r.Intn(3)
 		views := make([]io.ReadSeeker, nv)
@@ -195,11 +195,22 @@ func streamModelCorr(c *core.Ctx, r *core.Rand, n int) error {
 				k := 1 + r.Intn(9)
 				toks = append(toks, fmt.Sprintf("%d:r:%d", v, k))
 				buf := make([]byte, k)
-				got, err := views[v].Read(buf)
+				// a Read may deliver fewer bytes than asked for, and may report the end of the stream together with the
+				// last bytes: what counts is the bytes a reader gets by reading on (as io.ReadFull does)
+				got := 0
+				var err error
+				for got < k && err == nil {
+					var n int
+					n, err = views[v].Read(buf[got:])
+					got += n
+					if n == 0 && err == nil {
+						break
+					}
+				}
 				o := "b" + hexArg(buf[:got])
 				if err == io.EOF && got == 0 {
 					o += "E"
-				} else if err != nil {
+				} else if err != nil && err != io.EOF {
 					o = "err"
 				}
 				outs = append(outs, o)
@@ -406,7 +417,7 @@ func runC11(c *core.Ctx) error {
 				if r.Chance(1, 4) {
 					b = r.Bytes(20 + r.Intn(60))
 				}
-				sn := basicnode.NewBytesFromReader(bytes.NewReader(b))
+				sn := basicnode.NewBytesFromReader(core.StreamSource(r, b))
 				add(sn, "NewBytesFromReader")
 				for k := 0; k < 3; k++ {
 					if msg := streamViewsOracle(sn, b, r); msg != "" {
